@@ -120,11 +120,14 @@ class SimTxTransport:
         if not isinstance(data, bytes):
             raise TypeError("Data must be bytes")
         self.run.log("write", self.name, len(data), short(data), self.connected, self.aborting)
-        if not self.connected:
-            return
+        # observers see every octet the protocol hands over, accepted or not: whether the
+        # transport still takes it is not observable by the protocol
         if data:
             for o in self.observers:
                 o(data)
+        if not self.connected:
+            return
+        if data:
             self.written_total += len(data)
             if not self.aborting:
                 self.outbuf += data
@@ -368,3 +371,17 @@ def future_state(f):
     if isinstance(r, failure.Failure):
         return ("err", r.value)
     return ("ok", r)
+
+
+def new_future(world):
+    return defer.Deferred()
+
+
+def resolve_future(f, value):
+    if not f.called:
+        f.callback(value)
+
+
+def reject_future(f, exc):
+    if not f.called:
+        f.errback(exc)
